@@ -230,6 +230,7 @@ def count_switches(cname, opname):
 def check_schedule(ctx, case, enum=False):
     cname, opnames, plan = case["curve"], case["ops"], case["plan"]
     ctx.ev()
+    ctx.case_sample(case)
     try:
         results, errors, stats, sc = run_schedule(cname, opnames, plan)
     except Exception as e:
